@@ -383,9 +383,15 @@ package meta
 //@   loop 2: invariant forall m :: 1 <= m && m <= rangeindex + 1 ==> plainLit(core.Sub[m])
 
 // ---- C10: the DFA strategies are leftmost-first; in longest (POSIX) mode they must hand over to the NFA simulation ----
+// With IsComplete a function of the prefilter (trusted contract in prefilter/), the two `e.prefilter != nil` blocks at the
+// top of findIndicesDFA cover both of its answers, so the candidate loop and the "non-greedy" prefilter block below them are
+// dead code: 8 return statements and the loop head are unreachable (dead_returns / dead_loops say so explicitly; any further
+// unreachable return is still a vacuity failure).
 //@ func (*Engine).findIndicesDFA
 //@   props C10
 //@   opt safety=off
+//@   opt dead_returns=8
+//@   opt dead_loops=1
 //@   requires e != nil
 //@   modifies @searchState
 //@   ghost viaNFA = false
